@@ -182,6 +182,7 @@ def run(ctx):
                     okr and call[1].rsplit('::', 1)[-1] == want and SELF in call[2], 'finish() does not return the inner finish result unmodified')
     FI = hirq.Body(f, stream_body(f, 'finish_inner'))
     ctx.analysed['bodies'].add(FI.path)
+    synthetic = []
     for s in STATES:
         seen_res = set()
         for o in run_from(f, FI, s, combinators=True):
@@ -197,14 +198,16 @@ def run(ctx):
                 ctx.add('Q1.finish_inner.returns-stored-or-88', s + '|stored', loc(FI.root), okv, 'with a stored final result finish_inner returns %s instead of that result' % absx.fmt(v)[:80])
             elif has is False:
                 seen_res.add('none')
+                synthetic.append(struct_rc(v))
                 ctx.add('Q1.finish_inner.returns-stored-or-88', s + '|none', loc(FI.root), struct_rc(v) == 88,
                         'without a stored final result finish_inner must return the synthetic result code 88, found %s' % absx.fmt(v)[:80])
             else:
                 ctx.fail('Q1.finish_inner.returns-stored-or-88', s, loc(FI.root), 'finish_inner does not decide on the stored final result (self.res): %s' % absx.fmt(v)[:80])
         ctx.add('Q1.finish_inner.returns-stored-or-88', s + '|coverage', loc(FI.root), seen_res == {'stored', 'none'}, 'finish_inner paths seen for a stored result: %s' % sorted(seen_res))
-    fallback = [n for n, c in walk(FI.root) if n['k'] == 'Closure']
-    rc88 = any(struct_lit_rc(f, x) == 88 for cl in fallback for x, _ in walk(cl['body']) if x['k'] == 'Struct')
-    ctx.add('Q3.cancelled-is-88', FI.path, loc(FI.root), rc88, 'the synthetic result of an unfinished stream is not code 88')
+    # Q3: the value finish_inner returns on the paths without a stored final result (wherever and however it is built: a struct
+    # literal in a closure, a helper, a named constant) carries the literal result code 88
+    ctx.add('Q3.cancelled-is-88', FI.path, loc(FI.root), bool(synthetic) and all(rc == 88 for rc in synthetic),
+            'the synthetic result of an unfinished stream is not code 88 (result codes on the paths without a stored result: %s)' % sorted(set(map(str, synthetic))))
 
     # ------------------------------------------------------------------ Q2 next_inner
     N = hirq.Body(f, stream_body(f, 'next_inner'))
@@ -237,11 +240,12 @@ def run(ctx):
             continue
         if v == ('ctor', 'Ok', (('ctor', 'None', ()),)):
             kinds.add('done')
-            res = o.st.heap.get(('field', SELF, 'res'))
             rx = o.st.heap.get(('field', SELF, 'rx'))
-            ok = res is not None and res[0] == 'ctor' and res[1] == 'Some' and rx == ('ctor', 'None', ())
-            stores = [e for e in o.st.ev if e[0] == 'store' and e[1][0] == 'field' and e[1][2] == 'ctrls']
-            ok = ok and len(stores) == 1 and stores[0][2][0] == 'field' and stores[0][2][2] == '1' and stores[0][1][1][0] == 'variant' and stores[0][1][1][2] == 'SearchItem::Done'
+            # what self.res holds when the path returns: Some(X) where X is the Done message's own result with exactly its control
+            # list replaced by the controls received in the same message (assigned field by field, or rebuilt with `..res`)
+            done, ctr, others = stored_final_result(o)
+            ok = done is not None and done[0] == 'variant' and done[2] == 'SearchItem::Done' and done[1][0] == 'field' and done[1][2] == '0' \
+                and ctr == ('field', done[1][1], '1') and not others and rx == ('ctor', 'None', ())
             ctx.add('Q2.done-stores-result', 'Ok(None)', loc(N.root), ok, 'SearchResultDone: the result (with the message\'s controls) is not stored / receiver not dropped')
             continue
         if v[0] in ('tryerr',):
@@ -264,37 +268,7 @@ def run(ctx):
     # ------------------------------------------------------------------ Q4 search() and EntriesOnly
     SR = hirq.Body(f, f.body('ldap3::ldap::Ldap::search'))
     ctx.analysed['bodies'].add(SR.path)
-    ssw = [n for n, c in walk(SR.root) if n['k'] == 'MethodCall' and (callee_of(n) or '').endswith('Ldap::streaming_search_with')]
-    ok = len(ssw) == 1
-    if ok:
-        a = call_args(ssw[0])
-        ok = SR.origin(a[0]) == (('param', 'self'), ()) and a[1]['k'] == 'Call' and (callee_of(a[1]) or '') == 'ldap3::adapters::EntriesOnly::new' \
-            and [SR.origin(x) for x in a[2:]] == [(('param', n), ()) for n in ('base', 'scope', 'filter', 'attrs')]
-    ctx.add('Q4.search.uses-entries-only', SR.path, loc(SR.root), ok, 'search() is not streaming_search_with(EntriesOnly::new(), base, scope, filter, attrs)')
-    whiles = [n for n, c in walk(SR.root) if n['k'] == 'While']
-    okw = False
-    for w in whiles:
-        cnd = w['cond']
-        if cnd['k'] == 'LetExpr' and hirq.pat_variant(cnd['pat']) == 'Some':
-            init = cnd['init']
-            nxt = init['e'] if init['k'] == 'Try' else None
-            nxt = nxt['e'] if nxt and nxt['k'] == 'Await' else None
-            if nxt and nxt['k'] == 'MethodCall' and (callee_of(nxt) or '').endswith('::next') and 'SearchStream' in (callee_of(nxt) or ''):
-                eb = list(hirq.pat_bindings(cnd['pat']))[0][0]
-                pushes = [n for n, c in walk(w['body']) if n['k'] == 'MethodCall' and n['name'] == 'push' and hirq.local_of(n['args'][0]) == eb]
-                others = [n for n, c in walk(w['body']) if n['k'] in ('Break', 'Continue', 'Ret', 'If', 'Match')]
-                okw = len(pushes) == 1 and not others
-                vec_b = hirq.local_of(pushes[0]['recv']) if pushes else None
-    ctx.add('Q4.search.pushes-every-entry', SR.path, loc(SR.root), okw, 'search() does not push every entry returned by next() in order')
-    fin = [n for n, c in walk(SR.root) if n['k'] == 'MethodCall' and (callee_of(n) or '').endswith('::finish') and 'SearchStream' in (callee_of(n) or '')]
-    ret = SR.root
-    okr = False
-    for n, c in walk(SR.root):
-        if n['k'] == 'Call' and hirq.short_def(n['f'].get('ctor_of') or '') == 'result::SearchResult' and len(n['args']) == 2:
-            o1 = SR.origin(n['args'][1])
-            okr = okw and hirq.local_of(n['args'][0]) == vec_b and len(fin) == 1 and o1[0][0] == 'call' and o1[0][2] == fin[0].get('id') \
-                and all(SR.before(w, fin[0]) for w in whiles)
-    ctx.add('Q4.search.returns-entries-and-final-result', SR.path, loc(SR.root), okr, 'search() does not return (collected entries, finish() result)')
+    check_search(ctx, f, SR)
 
     EN = '<ldap3::adapters::EntriesOnly as ldap3::adapters::Adapter<\'a, S, A>>::'
     E = hirq.Body(f, f.body(EN + 'next'))
@@ -315,9 +289,12 @@ def run(ctx):
             v = o.val
             if v == ('ctor', 'Ok', (('ctor', 'None', ()),)):
                 seen.add('none')
-            elif v[0] == 'ctor' and v[1] == 'Err':
+                ctx.add('Q4.entries-only.end-passthrough', 'Ok(None)', loc(E.root), step_class(o, res) == 'OkNone',
+                        'the adapter reports the end of the stream on a path where the upstream next() is not known to have returned Ok(None)')
+            elif sem.is_err_result(v):
+                # Err(e) of the upstream's `Err(e)`, or the propagation of the upstream result by `?`
                 seen.add('err')
-                ctx.add('Q4.entries-only.err-passthrough', 'Err', loc(E.root), v[2][0] == ('variant', res, 'Err', 0), 'errors are not passed through unchanged')
+                ctx.add('Q4.entries-only.err-passthrough', 'Err', loc(E.root), step_class(o, res) == 'Err' and sem.reconstructs(v, res), 'errors are not passed through unchanged')
             elif v == ('ctor', 'Ok', (('ctor', 'Some', (entry,)),)):
                 seen.add('entry')
                 ctx.add('Q4.entries-only.entry-passthrough', 'entry', loc(E.root), is_int is False and is_ref is False,
@@ -380,6 +357,112 @@ def run(ctx):
     ctx.floor('Q4', 'paths of EntriesOnly::start reaching the upstream start()', n_up, 1)
 
 
+def stored_final_result(o):
+    """(base, ctrls, other fields written) of the value X that `self.res` holds as Some(X) at the end of path o: base is the value
+    X was taken from (X itself, or the `..base` of a struct-update expression), ctrls the term its control list has then, and
+    the names of any other fields of it that the path has overwritten.  (None, None, []) if self.res is not Some(..)."""
+    res = o.st.heap.get(('field', SELF, 'res'))
+    if res is None or res[0] != 'ctor' or res[1] != 'Some' or len(res[2]) != 1:
+        return None, None, []
+    x = res[2][0]
+    explicit = {}
+    base = x
+    while base is not None and base[0] == 'struct':
+        for n, v in base[2]:
+            explicit.setdefault(n, v)
+        base = base[3]
+    if base is None:
+        return None, None, []
+    written = {k[2]: v for k, v in o.st.heap.items() if k[0] == 'field' and k[1] == base}
+    written.update(explicit)
+    return base, written.get('ctrls'), sorted(n for n in written if n != 'ctrls')
+
+def step_results_are_distinct(I, cal, args, node, st):
+    """Interpreter summary: every call of the stream's stepping function yields a result of its own (the n-th call on a path is
+    numbered n).  The plain call term is keyed by its call site, so in an unrolled receive loop the second iteration would
+    'know' the outcome of the first; with this summary the iterations are told apart and the collected vector is exact."""
+    if cal.endswith('::next') and 'SearchStream' in cal:
+        n = len([e for e in st.ev if e[0] == 'call' and e[1] == cal])
+        return [absx.Out('val', ('call', cal, tuple(args), ('step', n)), st.event(('call', cal, tuple(args), node)))]
+    return None
+
+def step_class(o, r):
+    """What the path condition says about a Result<Option<_>> term: Err / OkNone / OkSome, or untested."""
+    ok = absx.pc_variant(o.st.pc, lambda v: v == r, 'Ok')
+    if ok is None:
+        return 'untested'
+    if ok is False:
+        return 'Err'
+    some = absx.pc_variant(o.st.pc, lambda v: v == ('variant', r, 'Ok', 0), 'Some')
+    return 'Ok?' if some is None else ('OkSome' if some else 'OkNone')
+
+def check_search(ctx, f, SR):
+    """Ldap::search on its enumerated paths, the receive loop unrolled (at most three steps): the stream is the one obtained from
+    streaming_search_with(EntriesOnly::new(), base, scope, filter, attrs); as long as next() yields Ok(Some(x)) the function
+    goes on; on the first Err it returns that error; on the first Ok(None) it calls finish() once and returns
+    Ok(SearchResult(v, finish-result)) where v is exactly the vector of the x's in the order they were received.  Nothing here
+    depends on how the loop, the error propagation or the vector are spelled."""
+    UNROLL = 3
+    I = absx.Interp(f, SR, summaries=[step_results_are_distinct], unroll=UNROLL, combinators=True)
+    outs = I.run(root=sem.entry(SR))
+    here = loc(SR.root)
+    params = tuple(('param', n) for n in ('base', 'scope', 'filter', 'attrs'))
+    ended, n_err = set(), 0
+    for o in outs:
+        ssw = sem.calls(o, lambda c: c.endswith('Ldap::streaming_search_with'))
+        oku = len(ssw) == 1 and len(ssw[0][2]) == 6 and ssw[0][2][0] == SELF and ssw[0][2][2:] == params \
+            and ssw[0][2][1][0] == 'call' and ssw[0][2][1][1] == 'ldap3::adapters::EntriesOnly::new' and not ssw[0][2][1][2]
+        ctx.add('Q4.search.uses-entries-only', SR.path, here, oku, 'search() is not streaming_search_with(EntriesOnly::new(), base, scope, filter, attrs)')
+        if not oku:
+            continue
+        opened = ('await', ('call', ssw[0][1], ssw[0][2], ssw[0][3].get('id')))
+        stream = ('variant', opened, 'Ok', 0)
+        steps = sem.calls(o, lambda c: c.endswith('::next') and 'SearchStream' in c)
+        fins = sem.calls(o, lambda c: c.endswith('::finish') and 'SearchStream' in c)
+        pushes = sem.calls(o, lambda c: c.rsplit('::', 1)[-1] in ('push', 'insert', 'extend', 'append', 'push_back', 'push_front'))
+        results = [('await', ('call', cal, args, ('step', k))) for k, (i, cal, args, node) in enumerate(steps)]
+        classes = [step_class(o, r) for r in results]
+        sig = ','.join(classes) or 'not opened'
+        if [1 for i, cal, args, node in steps + fins if args[:1] != (stream,)]:
+            ctx.fail('Q4.search.pushes-every-entry', sig, here, 'search() steps or finishes something other than the stream it opened')
+            continue
+        if o.kind == 'loop':
+            # still receiving after UNROLL steps: every step so far yielded an entry and every entry was collected
+            ctx.add('Q4.search.pushes-every-entry', sig + '|continues', here, classes == ['OkSome'] * len(classes) and len(pushes) == len(steps),
+                    'search() goes on receiving after a step that did not yield an entry, or without collecting every entry (%d steps, %d collected)' % (len(steps), len(pushes)))
+            continue
+        if o.kind not in ('ret', 'val'):
+            ctx.fail('Q4.search.pushes-every-entry', sig + '|' + o.kind, here, 'search() has a path ending in %s' % o.kind)
+            continue
+        v = o.val
+        if not steps:
+            # the search could not be opened: that error, nothing else
+            ctx.add('Q4.search.returns-entries-and-final-result', 'not opened', here,
+                    sem.failed(o, lambda x: x == opened) and sem.is_err_result(v) and sem.reconstructs(v, opened) and not fins,
+                    'search() returns %s although the stream was not opened' % absx.fmt(v)[:80])
+            continue
+        if classes[:-1] != ['OkSome'] * (len(classes) - 1) or classes[-1] not in ('Err', 'OkNone'):
+            ctx.fail('Q4.search.pushes-every-entry', sig, here,
+                     'search() stops receiving (returns %s) although the last step was neither an error nor the end of the stream, or goes on after one' % absx.fmt(v)[:60])
+            continue
+        entries = tuple(('variant', ('variant', r, 'Ok', 0), 'Some', 0) for r in results[:-1])
+        if classes[-1] == 'Err':
+            n_err += 1
+            ctx.add('Q4.search.returns-entries-and-final-result', sig, here, sem.is_err_result(v) and sem.reconstructs(v, results[-1]),
+                    'an error of next() is not returned to the caller as it is: %s' % absx.fmt(v)[:80])
+            continue
+        ended.add(len(entries))
+        okf = len(fins) == 1 and fins[0][0] > steps[-1][0]
+        want = ('ctor', 'Ok', (('ctor', 'result::SearchResult', (('vec', entries), ('await', ('call', fins[0][1], fins[0][2], fins[0][3].get('id'))) if okf else None)),))
+        okv = okf and v[0] == 'ctor' and v[1] == 'Ok' and len(v[2]) == 1 and v[2][0][0] == 'ctor' and len(v[2][0][2]) == 2
+        ctx.add('Q4.search.pushes-every-entry', sig, here, okv and v[2][0][2][0] == ('vec', entries),
+                'after %d entries search() does not return exactly those entries in the order received: %s' % (len(entries), absx.fmt(v[2][0][2][0] if okv else v)[:100]))
+        ctx.add('Q4.search.returns-entries-and-final-result', sig, here, okf and v == want, 'search() does not return (collected entries, finish() result): %s' % absx.fmt(v)[:100])
+    for k in range(UNROLL):
+        ctx.add('Q4.search.pushes-every-entry', 'coverage|%d entries' % k, here, k in ended, 'no path of search() on which the stream ends after %d entries' % k)
+    ctx.add('Q4.search.returns-entries-and-final-result', 'coverage|error', here, n_err >= 1, 'no path of search() on which next() fails')
+
+
 def is_empty_vec(v):
     return v == ('vec', ()) or v[0] == 'default' or (v[0] == 'call' and v[1].rsplit('::', 1)[-1] in ('new', 'default', 'with_capacity') and 'Vec' in v[1])
 
@@ -399,10 +482,4 @@ def struct_rc(v):
         for n, x in v[2]:
             if n == 'rc' and x[0] == 'lit':
                 return x[1]
-    return None
-
-def struct_lit_rc(f, n):
-    for fl in n['fields']:
-        if fl['name'] == 'rc':
-            return hirq.const_eval(f, fl['e'])
     return None
